@@ -401,6 +401,27 @@ func runOrder(k orderCase, r *engine.Report) (string, string) {
 	}
 	r.Branch("order:" + action)
 	r.Outcome("order:" + action)
+	// reinitialization requested by a caller that manages storage itself
+	// (skip-storage): whatever is stored, both returned roots are new
+	if pre != nil && k.Config.Store == "inmem" {
+		inner, _ := inmem.New(harness.Ctx)
+		if err := pre.Store(harness.Ctx, inner); err != nil {
+			panic(err)
+		}
+		setClock(k.Config, at(k.Ranks[4]))
+		o := append(k.Config.opts(), nodeenrollment.WithReinitializeRoots(true), nodeenrollment.WithSkipStorage(true))
+		ret, err := rotation.RotateRootCertificates(harness.Ctx, inner, o...)
+		same := func(a, b *types.RootCertificate) bool {
+			return a != nil && b != nil && bytes.Equal(a.PublicKeyPkix, b.PublicKeyPkix)
+		}
+		switch {
+		case err != nil:
+			return "reinit-skip-storage:error", fmt.Sprintf("[%s] reinitialization with skip-storage failed: %v", k.Config, err)
+		case ret == nil || ret.Current == nil || ret.Next == nil || same(ret.Current, pre.Current) || same(ret.Current, pre.Next) || same(ret.Next, pre.Current) || same(ret.Next, pre.Next):
+			return "reinit-skip-storage:old-root-returned", fmt.Sprintf("[%s] stored windows as ranks cur=%d..%d next=%d..%d now=%d: reinitialization was requested (with skip-storage) and a previously stored root came back", k.Config, k.Ranks[0], k.Ranks[1], k.Ranks[2], k.Ranks[3], k.Ranks[4])
+		}
+		r.Branch("order:reinit-skip-storage")
+	}
 	// the same stored roots, but this call cannot read them: it may not take
 	// "unreadable" for "missing" - it must fail and leave storage as it is
 	if pre != nil && !k.Config.Reinit && k.Config.Store == "inmem" {
@@ -579,7 +600,7 @@ func runHistories(c *engine.Ctx, r *engine.Report, cfg config) {
 }
 
 func run(c *engine.Ctx, r *engine.Report) {
-	r.Need("order:noop", "order:promote", "order:remint", "order:startover", "history:noop", "history:promote", "history:startover")
+	r.Need("order:noop", "order:promote", "order:remint", "order:startover", "history:noop", "history:promote", "history:startover", "order:unreadable-roots-refused", "order:reinit-skip-storage")
 	cfgs := configs(c)
 	ots := orderTypes()
 	r.Extra["order_types_total"] = float64(len(ots))
